@@ -271,7 +271,9 @@ def unreduced_cross_entropy_loss(targets: jnp.ndarray,
     # If targets is sparse, convert to one hot representation.
     num_classes = preds.shape[-1]
     targets = jax.nn.one_hot(targets, num_classes)
-  return -jnp.sum(targets * log_preds, axis=-1)
+  # Classes with zero target probability do not contribute, even if their log
+  # probability is -inf (0 * -inf would be NaN).
+  return -jnp.sum(jnp.where(targets == 0, 0., targets * log_preds), axis=-1)
 
 
 @dataclasses.dataclass
@@ -480,10 +482,11 @@ class SequenceTokenCrossEntropyLoss(Metric):
     pred = prediction if self.pred_key is None else prediction[self.pred_key]
     target_weight = get_target_weight(target, self.masked_target_values)
     token_loss = unreduced_cross_entropy_loss(target, pred)
+    # Masked tokens are ignored even if their loss is infinite (inf * 0 = NaN).
+    token_loss = jnp.where(target_weight == 0, 0., token_loss * target_weight)
     if self.per_position:
-      return MeanStat.new(token_loss * target_weight, target_weight)
-    return MeanStat.new(
-        jnp.sum(token_loss * target_weight), jnp.sum(target_weight))
+      return MeanStat.new(token_loss, target_weight)
+    return MeanStat.new(jnp.sum(token_loss), jnp.sum(target_weight))
 
 
 @dataclasses.dataclass
@@ -526,10 +529,11 @@ class SequenceCrossEntropyLoss(Metric):
     pred = prediction if self.pred_key is None else prediction[self.pred_key]
     target_weight = get_target_weight(target, self.masked_target_values)
     token_loss = unreduced_cross_entropy_loss(target, pred)
+    # Masked tokens are ignored even if their loss is infinite (inf * 0 = NaN).
+    token_loss = jnp.where(target_weight == 0, 0., token_loss * target_weight)
     # Change weight from number of non masked target tokens to 1 if the sequence
     # contains any non masked tokens or 0 if the entire sequence is masked.
-    return MeanStat.new(
-        jnp.sum(token_loss * target_weight), jnp.any(target_weight))
+    return MeanStat.new(jnp.sum(token_loss), jnp.any(target_weight))
 
 
 @dataclasses.dataclass
